@@ -55,7 +55,8 @@ def shards(tier):
 
 def floors(tier):
     f = {"positive": 20000, "negative": 10000, "through_validator": 1000, "hostile_first": 300,
-         "hostile_middle": 300, "hostile_last": 300, "distinct_nontrivial": 10000, "short_lived_resolutions": 5000}
+         "hostile_middle": 300, "hostile_last": 300, "distinct_nontrivial": 10000, "short_lived_resolutions": 5000, "whole_documents_through_resolver": 100,
+         "reused_validator_pointer_sequences": 500}
     for k in ("missing_key", "index_eq_len", "index_gt_len", "non_index_token", "token_on_scalar", "token_on_string",
               "disguised_in_range_index"):
         f["neg:" + k] = 500
@@ -202,6 +203,66 @@ def through_validator(ctx, rng, doc):
             ctx.violation("validator-wrong-target", case, "reference did not reach the marker schema")
 
 
+def whole_documents_through_the_resolver(ctx):
+    """The empty fragment returns the whole document for EVERY document - also when the document is null, false, 0, an
+    empty string / array / object - and when it is reached through resolve / resolve_from_url / resolving / $ref (the
+    document supplied in the store; a handler for the same scheme serves a decoy and must not be asked)."""
+    from jsonschema import RefResolver
+    docs = [None, False, True, 0, 0.0, "", "s", [], {}, [None], {"a": None}, {"": None}, [0, False], 1]
+    for n, doc in enumerate(docs):
+        for scheme in ("http://store.example/whole/", "vf://handler.example/whole/"):
+            url = "%sd%d.json" % (scheme, n)
+            calls = []
+
+            def handler(u, calls=calls):
+                calls.append(u)
+                return {"decoy": True, "a": "fetched"}
+            for how in ("resolve", "resolve#", "resolve_from_url", "resolving", "pointer-into-it", "$ref"):
+                R_ = RefResolver("", {}, store={url: doc}, handlers={"vf": handler, "http": handler})
+                case = {"document": doc, "url": url, "via": how}
+                ctx.case([doc, url, how])
+                ctx.count("whole_documents_through_resolver")
+                try:
+                    if how == "resolve":
+                        got = R_.resolve(url)[1]
+                    elif how == "resolve#":
+                        got = R_.resolve(url + "#")[1]
+                    elif how == "resolve_from_url":
+                        got = R_.resolve_from_url(url)
+                    elif how == "resolving":
+                        with R_.resolving(url) as got:
+                            pass
+                    elif how == "pointer-into-it":
+                        if isinstance(doc, dict) and "a" in doc:
+                            got = R_.resolve(url + "#/a")[1]
+                            if got is not doc["a"] and got != doc["a"]:
+                                ctx.violation("positive-wrong-value", case, "pointer /a returned %r" % (got,))
+                            continue
+                        try:
+                            got = R_.resolve(url + "#/a")[1]
+                        except RefResolutionError:
+                            if calls:
+                                ctx.violation("stored-document-retrieved", case, "handler asked for %r" % calls[:2])
+                            continue
+                        ctx.violation("negative-returned-value", case, "pointer /a into %r returned %r" % (doc, got))
+                        continue
+                    else:
+                        if not isinstance(doc, (dict, bool)):
+                            continue        # a reference to a non-schema value is outside this property (C03 finding)
+                        v = impl.CLS[7]({"$ref": url}, resolver=R_)
+                        got = doc if v.is_valid(1) == (doc is not False) else "verdict differs"
+                except RefResolutionError as e:
+                    ctx.violation("positive-raised", case, "RefResolutionError: %s" % str(e)[:100])
+                    continue
+                except Exception as e:
+                    ctx.violation("positive-other-exception", case, "%s: %s" % (type(e).__name__, str(e)[:100]))
+                    continue
+                if calls:
+                    ctx.violation("stored-document-retrieved", case, "handler asked for %r although the document is in the store" % calls[:2])
+                elif not (got is doc or (got == doc and type(got) is type(doc))):
+                    ctx.violation("positive-wrong-value", case, "returned %r instead of the whole document %r" % (got, doc))
+
+
 def reused_validator_pointers(ctx, rng, doc):
     """One validator object whose references are pointers into the same document, some addressing a marker schema and
     one addressing nothing: a pointer that failed cleanly (RefResolutionError) must leave the next ones resolving to
@@ -319,6 +380,8 @@ def run(ctx):
             through_validator(ctx, rr, doc)
             reused_validator_pointers(ctx, rr, doc)
     short_lived_documents(ctx, ctx.scale(400, 5000))
+    if ctx.shard == 0:
+        whole_documents_through_the_resolver(ctx)
     rng = ctx.rng
     for i in range(ctx.scale(1500, 25000)):
         doc = gen_doc(rng, rng.choice([2, 3, 4]))
@@ -335,6 +398,9 @@ def run(ctx):
 def replay(ctx, rec):
     c = rec["case"]
     R = resolver()
+    if "via" in c:
+        whole_documents_through_the_resolver(ctx)       # deterministic and small: the whole cell is run again
+        return
     if "document" in c:
         doc, frag = c["document"], c["fragment"]
         try:
